@@ -122,8 +122,8 @@ def run_history(t):
     struct that previously held a gradient of another size, equal a fresh object's result node for node."""
     o, d = t['order'], t['dim']
     out = []
-    for (N0, N) in ((3, 2), (1, 3), (2, 1), (2, 2)):
-        rng = C.rng_for(t['seed'], 'C05h', o, d, N0, N)
+    for (N0, N, mode) in ((3, 2, 'dur'), (1, 3, 'dur'), (2, 1, 'dur'), (2, 2, 'dur'), (3, 3, 'tp'), (3, 3, 'dur'), (2, 3, 'tp'), (4, 4, 'tp')):
+        rng = C.rng_for(t['seed'], 'C05h', o, d, N0, N, mode)
         s = D.Script()
         pr0 = C.Problem(s, 'a', o, d, N0, rng)
         pr = C.Problem(s, 'b', o, d, N, rng)
@@ -137,16 +137,27 @@ def run_history(t):
         # history object: problem a, propagate, update to problem b, propagate twice (value, then reference overload into reused struct)
         pr0.new(s, 'H')
         s.add('sp.prop H Ha ref GS', rows0, *g0, N0, *gt0)
-        pr.update(s, 'H')
+        if mode == 'tp':
+            # the absolute-time-points overload, same or other segment count, other durations
+            from .C10 import tp_names
+            q = tp_names(s, 'b', N, rng)
+            s.add('sp.update H tp', N + 1, *q, N + 1, *pr.flatP(), pr.bcname)
+        else:
+            pr.update(s, 'H')
         s.add('sp.prop H H1 val', rows, *g1, N, *gt1)
         s.add('sp.prop H H2 ref GS', rows, *g2, N, *gt2)
         s.add('sp.prop H H3 val', rows, *g1, N, *gt1)
         # fresh objects
-        pr.new(s, 'F1')
+        def fresh(nm):
+            if mode == 'tp':
+                s.add('sp.new', nm, 'tp', N + 1, *q, N + 1, *pr.flatP(), pr.bcname)
+            else:
+                pr.new(s, nm)
+        fresh('F1')
         s.add('sp.prop F1 F1 val', rows, *g1, N, *gt1)
-        pr.new(s, 'F2')
+        fresh('F2')
         s.add('sp.prop F2 F2 val', rows, *g2, N, *gt2)
-        sc = O.Scenario(ID, '%s N%d->N%d' % (t['name'], N0, N), build.spline_tu(o, d), s, timeout=t['timeout'])
+        sc = O.Scenario(ID, '%s N%d->N%d %s' % (t['name'], N0, N, mode), build.spline_tu(o, d), s, timeout=t['timeout'])
         for key, nm in pr.inputs():
             sc.uf_eq('after update: propagate == fresh [%s]' % G.key_str(key), G.grad_out('H1', key, N), G.grad_out('F1', key, N))
             sc.uf_eq('second call, reference overload into reused struct == fresh [%s]' % G.key_str(key), G.grad_out('H2', key, N), G.grad_out('F2', key, N))
